@@ -2073,6 +2073,65 @@ class FnCtx:
                 bound = (1 << (w * L)) - 1
                 out[phi] = bound
                 out[t] = bound
+        # the same sum accumulated by a hand-written counter that steps by one (`let mut i = n; while i > 0 { i -= 1; .. }`, or
+        # counting up): the positions w * (i + c) are distinct because i moves strictly, and lie below w * L when the
+        # position's own range says so
+        for lp in self._loops:
+            if lp.next:
+                continue
+            for phi in list(self.seen_phis):
+                if phi[2] != lp.head or (self.ft.tyof(phi) or "") not in INT_BITS:
+                    continue
+                ops = ft.phi_operands(phi)
+                init = [v for p_, v in ops.items() if p_ not in lp.body]
+                back = [v for p_, v in ops.items() if p_ in lp.body]
+                if len(init) != 1 or len(back) != 1 or const_int(init[0]) != 0:
+                    continue
+                t = back[0]
+                if not (t[0] == "bin" and t[1] in ("Add", "AddWithOverflow") and t[2] == phi):
+                    continue
+                m = t[3]
+                if not (m[0] == "bin" and m[1] in ("Mul", "MulWithOverflow")):
+                    continue
+                d, pw = m[2], m[3]
+                if not (pw[0] == "bin" and pw[1] == "Shl"):
+                    d, pw = pw, d
+                if not (pw[0] == "bin" and pw[1] == "Shl" and const_int(pw[2]) == 1):
+                    continue
+                # evaluated in a block of the loop body (where the guard's facts about the counter hold)
+                for b_ in [b2 for b2 in sorted(lp.own) if b2 != lp.head]:
+                    lk = self.linear(pw[3], b_)
+                    if lk is None or len(lk[0]) != 1:
+                        continue
+                    cnt, w = list(lk[0].items())[0]
+                    if not (isinstance(cnt, tuple) and cnt and cnt[0] == "phi" and cnt[2] == lp.head and cnt != phi and w > 0 and lk[1] % w == 0):
+                        continue
+                    # the counter moves by exactly one on every way back
+                    cops = ft.phi_operands(cnt)
+                    cback = [v for p_, v in cops.items() if p_ in lp.body]
+
+                    def step(v, depth=0):
+                        if v[0] == "field" and str(v[2]) == "0" and v[1][0] == "bin":
+                            v = ("bin", v[1][1].replace("WithOverflow", ""), v[1][2], v[1][3])
+                        if v[0] == "bin" and v[1] in ("Add", "Sub") and strip_site(v[2]) == strip_site(cnt) and const_int(v[3]) == 1:
+                            return v[1]
+                        if v[0] == "phi" and v[1] == ft.path and v[2] in lp.body and v != cnt and depth < 4:
+                            ss = {step(o, depth + 1) for o in ft.phi_operands(v).values()}
+                            return ss.pop() if len(ss) == 1 else None
+                        return None
+                    steps = {step(v) for v in cback}
+                    if len(steps) != 1 or None in steps:
+                        continue
+                    ev = self.av(pw[3], b_)
+                    dv = self.av(d, b_)
+                    if ev[0] != "i" or ev[1] < 0 or dv[0] != "i" or dv[1] < 0 or dv[2] > (1 << w) - 1:
+                        continue
+                    top = ev[2] + w                       # positions lie in [0, ev.hi], so the sum is below 2^(ev.hi + w)
+                    if top > 200:
+                        continue
+                    out[phi] = (1 << top) - 1
+                    out[t] = (1 << top) - 1
+                    break
         self._possum = out
         return out
 
